@@ -15,6 +15,16 @@ def main():
     ap.add_argument("--tier", default=os.environ.get("VERIF_TIER", "quick"))
     ap.add_argument("--replay")
     a = ap.parse_args()
+    # whole-check wall-clock limit: a timeout is an infrastructure failure (exit 2), never a verdict
+    import threading
+    limit = int(os.environ.get("VERIF_CHECK_TIMEOUT", "1500" if a.tier != "thorough" else "7200"))
+
+    def too_long():
+        print(f"INFRA-FAILURE property={a.pid}: check exceeded {limit} s", file=sys.stderr)
+        os._exit(2)
+    timer = threading.Timer(limit, too_long)
+    timer.daemon = True
+    timer.start()
     try:
         from core import InfraError, VERIF
         from engine import Check
